@@ -24,7 +24,7 @@ META = {
     'quotas': {
         'quick': {'nodes-compared': 1000, 'defense-nondefault': 10, 'exist-true': 1, 'exist-false': 1,
                   'step-inherited': 10, 'step-overridden': 5, 'name-with-colon': 5, 'dup-name-requested': 5,
-                  'rename-collision-pattern': 2, 'lookups-compared': 1000, 'class:exist-requirement-setop-multi-source': 20},
+                  'rename-collision-pattern': 2, 'lookups-compared': 1000, 'class:exist-requirement-setop-multi-source': 20, 'class:model-reached-through-edit-history': 20},
         'thorough': {'nodes-compared': 100000, 'defense-nondefault': 1000, 'exist-true': 50, 'exist-false': 50,
                      'step-inherited': 1000, 'step-overridden': 500, 'name-with-colon': 500,
                      'dup-name-requested': 500, 'rename-collision-pattern': 100, 'lookups-compared': 100000},
@@ -94,13 +94,22 @@ def hostile_requires(rng, case):
 def _check_case(case, res, count=True):
     case = copy.deepcopy(case)
     try:
-        built = Built(case, attackers=False)
+        if 'history' in case:
+            from ..shadow import Divergence
+            try:
+                built = Built.from_history(case)
+            except Divergence:
+                return None
+            if count:
+                res.count('class:model-reached-through-edit-history')
+        else:
+            built = Built(case, attackers=False)
     except Exception as exc:
         return ('model.build:raised-%s' % type(exc).__name__, 'building a valid model raised %r' % (exc,))
     lang, am = built.lang, built.am
     # constraints on names chosen by the implementation
     seen = set()
-    for a in am.assets:
+    for a in (am.assets if 'history' not in case else []):
         req = a.get('req_name')
         if req is not None:
             if count:
@@ -253,8 +262,18 @@ def run(rng, res, tier, shard, nshards):
         case = hostile_names(rng, case)
         if case['source'] == 'generated' and rng.random() < 0.6:
             case = hostile_requires(rng, case)
+        if case['source'] == 'generated' and rng.random() < 0.12:
+            from ..shadow import gen_history
+            h = gen_history(rng, Lang(case['spec']), rng.randint(5, 30), invalid=0.0, attackers=False, names=['srv', 'db', 'n', 'x', None])
+            for _ in range(rng.randint(1, 3)):
+                h.insert(rng.randrange(len(h) + 1), ['add_assoc', rng.randrange(64), [['live', rng.randrange(64)], ['live', rng.randrange(64)]], [['live', rng.randrange(64)]]])
+            cut = rng.randrange(len(h) + 1)
+            for _ in range(rng.randint(1, 3)):
+                h.insert(rng.randrange(cut, len(h) + 1), ['remove_from_assoc', ['live', rng.randrange(64)], ['live', rng.randrange(64)]])
+            case = {'source': 'history', 'spec': case['spec'], 'amodel': {'assets': [], 'links': [], 'attackers': []},
+                    'history': h, 'generate_after': cut}
         first = check_case(case, res)
-        res.case(digest([case['spec'], case['amodel']]) if nontrivial(case) else None)
+        res.case(digest([case['spec'], case['amodel'], case.get('history')]) if (nontrivial(case) or 'history' in case) else None)
         if len(res.samples) < 3 and len(case['amodel']['assets']) >= 2:
             res.sample({'assets': [(a['id'], a.get('req_name', a['name']), a['type'], a['defenses']) for a in case['amodel']['assets']],
                         'types': {a['name']: [s['name'] + ':' + s['type'] for s in a['attackSteps']] for a in case['spec']['assets']}})
@@ -265,7 +284,7 @@ def run(rng, res, tier, shard, nshards):
                 from ..result import Result
                 f2 = check_case(c, Result('C02', 'shrink', 0, 0), count=False)
                 return f2 is not None and f2[0] == key
-            small, runs = shrink_case(case, still, max_runs=60)
+            small = case if 'history' in case else shrink_case(case, still, max_runs=60)[0]
             res.violation(key, what, {'minimised': small, 'original': case})
     if budget.timed_out():
         res.notes['time-cap-hit'] = True
